@@ -8,7 +8,7 @@ CLAIMS = {
  "C01": ("guard dominance + writer/reader agreement + taint over typed HIR", "5 C01",
          "rank()/rank_zero() clamp before rank_unchecked on every path; counter geometry and rel/set_rel agreement; tail bits never counted unmasked in rank constructors; rank_unchecked/rank_hinted count only whole words before the word of pos and that word under the low mask of pos % 64; count_ones (the cached num_ones) reads only the logical contents. The remaining per-word arithmetic of rank_unchecked is not decided."),
  "C02": ("guard dominance + sibling-skeleton and writer/reader agreement over typed HIR", "5 C02",
-         "select()/select_zero() bound checks; span encoding constants; Select9 and SelectAdapt* writer/reader addressing; sibling agreement of the four adaptive selectors; construction loops stay inside the counters (Select9 position loop bounded by the word count, SelectSmall inventory_begin closed by the inventory length); map() keeps the const parameters; the small selectors keep one inventory_begin slot per 2^32-bit superblock and never search blocks outside the superblock of the rank. The broadword search itself is not decided. Known limitation (DESIGN section 13): the sibling-skeleton rules also report a behaviour-preserving rewrite of only one of the hand-mirrored selector files when it changes that file's decision/arithmetic skeleton (3 of 172 refactors of the benign corpus)."),
+         "select()/select_zero() bound checks; span encoding constants; Select9 and SelectAdapt* writer/reader addressing; sibling agreement of the four adaptive selectors; construction loops stay inside the counters (Select9 position loop bounded by the word count, SelectSmall inventory_begin closed by the inventory length); map() keeps the const parameters; the small selectors keep one inventory_begin slot per 2^32-bit superblock and never search blocks outside the superblock of the rank. The broadword search itself is not decided. Known limitation (DESIGN section 13): the sibling-skeleton rules also report a behaviour-preserving rewrite of only one of the hand-mirrored selector files when it changes that file's decision/arithmetic skeleton (5 of 227 refactors of the benign corpus)."),
  "C03": ("guard dominance + split/merge agreement + float-to-shift taint over typed HIR", "5 C03",
          "push validation, iterator start protocol, low/high split agreement between builders and readers, allocation formula, no float-derived shift amount. Select on the high bits is C02."),
  "C04": ("guard dominance (existence and universe guards) over typed HIR", "5 C04",
